@@ -58,7 +58,7 @@ func init() {
 	})
 	register("C11", func(r *Run) error {
 		return runB(r, &BSpec{
-			ID: "C11", Profiles: []string{"faults", "faults", "stateful"}, Gen: withLR([]string{"faults", "faults", "stateful"}, 4, false),
+			ID: "C11", Profiles: []string{"faults", "faults", "stateful"}, Gen: withLR([]string{"faults", "faults", "stateful"}, 3, false),
 			Grammars: [2]int{96, 1600}, Cases: [2]int{500, 1000}, Variants: plainAndOptimized,
 			Rule:        "grammars from profile faults (display names on some rules) with fault plans drawn by rapid per case: up to 4 blocks returning errors (unique and repeated messages, n-th invocation or every invocation) or panicking with an error/string, Recover(true|false), file name empty or not; compared: dynamic type of the error (errList of *parserError), Inner identical to the injected value, every message [file:]line:col (off)[: rule NAME]: msg, exact list in order of first occurrence after de-duplication, value returned together with errors, panic -> nil value and last error (Recover) or the same value reaching the caller (Recover(false)). Non-trivial = >=1 fault fired.",
 			Assumptions: commonAssumptions,
